@@ -164,11 +164,39 @@ static const char *opname[] = { "get_inode", "list_dir", "resolve_path", "read",
 				"xattr_step", "id_lookup", "meta_seek_read", "resolve_inum", "file_api_consistency" };
 
 /* want: 0 any, 1 regular file, 2 directory; most picks land on an inode of the wanted type */
+/* file inodes that carry data, largest first (built lazily from the catalogue): data queries prefer them, because a catalogue full of
+ * empty directory entries would otherwise dilute the few inodes whose blocks and fragments can disagree with earlier reads */
+static size_t bysize[MAXCAT];
+static size_t nbysize;
+static int bysize_built;
+
+static int cmp_bysize(const void *x, const void *y)
+{
+	size_t a = *(const size_t *)x, b = *(const size_t *)y;
+	if (cat[a].size != cat[b].size)
+		return cat[a].size > cat[b].size ? -1 : 1;
+	return a < b ? -1 : (a > b);
+}
+
 static size_t pick_index(uint32_t a, int want)
 {
 	size_t i = ncat ? a % ncat : 0;
 	if (!ncat || !want || (a >> 20) % 5 == 0)
 		return i;
+	if (want == 1) {
+		if (!bysize_built) {
+			bysize_built = 1;
+			nbysize = 0;
+			for (size_t k = 0; k < ncat; k++)
+				if ((cat[k].type == SQFS_INODE_FILE || cat[k].type == SQFS_INODE_EXT_FILE) && cat[k].size > 0)
+					bysize[nbysize++] = k;
+			qsort(bysize, nbysize, sizeof(bysize[0]), cmp_bysize);
+		}
+		if (nbysize && (a >> 20) % 5 <= 2)
+			return bysize[(a >> 8) % (nbysize < 16 ? nbysize : 16)];      /* one of the 16 largest */
+		if (nbysize && (a >> 20) % 5 == 3)
+			return bysize[(a >> 8) % nbysize];                             /* any file with data */
+	}
 	for (size_t k = 0; k < ncat; k++) {
 		size_t j = (i + k) % ncat;
 		int t = cat[j].type;
